@@ -191,3 +191,13 @@ package ice
 //@   ensures a-controlled-agent-is-refused: old(a.isControlling) == 0 ==> result != nil && !sent
 //@   ensures a-disabled-feature-is-refused: !old(a.enableRenomination) ==> result != nil && !sent
 //@   ensures refusals-send-nothing: !sent ==> result != nil
+
+// Automatic renomination only when both switches are on, only for a pair that is not the selected one's
+// worse, and through the same guarded entry point as the application's RenominateCandidate.
+//@ func (*controllingSelector).checkForAutomaticRenomination
+//@   props C20
+//@   opt nosafety
+//@   site call renominateCandidate#1 assert automatic-renomination-needs-both-switches: s.agent.automaticRenomination && s.agent.enableRenomination
+//@   site call renominateCandidate#1 assert renominates-the-pair-it-judged-better: arg1 == bestPair.Local && arg2 == bestPair.Remote && arg0 == s.agent
+//@   site call shouldRenominate#1 assert compares-the-selected-pair-with-the-best-one: arg1 == currentPair && arg2 == bestPair && currentPair != nil && bestPair != nil
+//@ enumerate C20 calls ice.(*Agent).renominateCandidate in (*Agent).RenominateCandidate, (*controllingSelector).checkForAutomaticRenomination
